@@ -17,6 +17,8 @@ type Reader struct {
 	Pos    int
 	Calls  int
 	Budget int // 0 = 64+16*len
+	// Tripped is set when the budget was exceeded (the code under test may recover the panic)
+	Tripped bool
 	// Next, if set, supplies bytes lazily (environment-driven exploration): called
 	// when Pos == len(Data); returns (byte, true) or (_, false) for EOF.
 	Next func() (byte, bool)
@@ -32,6 +34,7 @@ func (r *Reader) step() {
 		b = 64 + 16*len(r.Data)
 	}
 	if r.Calls > b {
+		r.Tripped = true
 		panic(Runaway{r.Calls})
 	}
 }
@@ -142,6 +145,7 @@ type Writer struct {
 	Kind    int
 	Max     int // maximum number of Write calls before panicking with Runaway (0 = 1<<20)
 	Lost    bool
+	Tripped bool
 }
 
 // NewWriter builds a writer that never fails.
@@ -155,6 +159,7 @@ func (w *Writer) Write(p []byte) (int, error) {
 		max = 1 << 20
 	}
 	if w.Calls > max {
+		w.Tripped = true
 		panic(Runaway{w.Calls})
 	}
 	w.Sizes = append(w.Sizes, len(p))
